@@ -149,9 +149,9 @@ def main(ctx):
                        "statistics z_(floor(np)) and z_(ceil(np)+1)",
                        "orientation (clockwise/counter-clockwise) and start angle of the normals are not prescribed"]
     q = ctx.quick
-    ns = (50, 200, 1000) if q else (50, 200, 1000, 5000)
-    steps = [1, 5, 6, 8, 24, 45, 60] if q else DIVISORS
-    seeds = (1,) if q else (1, 2)
+    ns = (50, 200, 1000, 5000) if q else (50, 200, 1000, 5000, 20000)
+    steps = DIVISORS
+    seeds = (1, 2) if q else (1, 2, 3, 4)
     cases = []
     for kind in ("hs_tz", "ew_ew", "ln_normal", "rounded", "heavy", "lattice"):
         for n in ns:
